@@ -1,8 +1,11 @@
 """C12 — current_context() follows strict per-task stack discipline."""
+from ..core import Composite
 from ..kernel_prop import KernelProp
+from ..startup_prop import StartupProp
 
 
-class C12(KernelProp):
+class C12Kernel(KernelProp):
+    kinds = ("ctx",)
     id = "C12"
     tags = ("C12",)
     quick_cases = 700
@@ -10,13 +13,13 @@ class C12(KernelProp):
     n_ops = (10, 40)
     weights = {"new": 14, "enter": 16, "exit": 12, "add": 3, "addf": 1, "getnw": 2, "get": 1, "finish": 0,
                "getall": 0, "addtd": 5, "current": 22, "parent": 8, "spawn": 6, "state": 1, "inject": 2}
-    gen_kwargs = {"max_ctx": 8, "max_tasks": 4, "malformed": 0.0, "wrong_state": 0.03, "exc_end": 0.5}
+    gen_kwargs = {"max_ctx": 8, "max_tasks": 4, "malformed": 0.0, "wrong_state": 0.03, "exc_end": 0.5, "p_cancel": 0.15}
     rule = ("nesting depth <=6, up to 4 tasks spawned from inside and outside blocks, each entering/leaving its own "
-            "contexts; exits by return / Exception / BaseException / failing teardown; current_context() and "
+            "contexts; exits by return / Exception / BaseException / cancellation / failing teardown; current_context() and "
             "Context.parent sampled throughout. Non-trivial: >=2 tasks each with an open block at the same time, or a "
             "block left by an exception or with a raising teardown callback followed by a current_context() sample")
     assumptions = ["task-locality is contextvars' semantics (in the model it holds by construction: the weight is on the "
-                   "correspondence)", "cancellation as a way of leaving a block is not generated"]
+                   "correspondence)", "cancellation is generated as the way a block ends, not in the middle of a teardown"]
 
     def nontrivial(self, case, impl):
         open_by: dict[int, int] = {}
@@ -33,6 +36,28 @@ class C12(KernelProp):
             elif op["op"] == "current" and abnormal:
                 return True
         return False
+
+
+class C12Startup(StartupProp):
+    """Inside components: prepare()/start() run in the component's own context; a context created there
+    takes the context start_component() was called in as parent, and leaving it restores the current one."""
+    id = "C12"
+    kinds = ("startup",)
+    tags = ("C12",)
+    gen_kwargs = {"max_nodes": 8, "max_depth": 3, "p_await": 0.3, "p_stuck": 0.0, "p_fail": 0.2}
+
+    def nontrivial(self, case, impl):
+        return len(case["prog"]) >= 2 and any(e["l"][0] == "regTd" for e in impl["trace"])
+
+
+class C12(Composite):
+    id = "C12"
+    quick_cases = C12Kernel.quick_cases
+    thorough_cases = C12Kernel.thorough_cases
+    parts = [(6, C12Kernel()), (1, C12Startup())]
+    rule = C12Kernel.rule + ("; one case in seven is a component tree start-up (as in C05) where every prepare()/start() "
+                             "samples current_context() and creates/enters/leaves a nested context")
+    assumptions = C12Kernel.assumptions
 
 
 PROP = C12()
